@@ -228,4 +228,8 @@ R.add('L20.2', l202, [dict(server=True), dict(server=False)], replay=replay_l202
       desc='register_function/unregister_function are inverses',
       expect=['a class can be registered again after unregister_function'])
 
+for _lid in ['L20.1', 'L20.2']:
+    if _lid in R.lemmas:
+        R.lemmas[_lid].api = True
+
 get_harness = R.get_harness
